@@ -22,6 +22,7 @@ REQUIRED = [
     "fact_comparisons_exact", "fact_exists_key", "fact_background_jobs", "fact_wiring", "fact_store_guards_credential_id",
     # deepening round 3 (Props/C16R3.lean): client loop guards, seed discipline
     "fact_update_loop_guards", "fact_add_arguments", "fact_seed_draw",
+    "node_clientLoop_refines", "node_update_refines", "node_update_frame", "node_update_get_fails",
     "seeds_bounded", "reset_draws_unseen_seed", "reset_noticed_by_client",
     "client_loop_never_panics", "client_refuses_malformed", "client_refuses_malformed_after_held",
     # deepening round 2026-09-28: node layer (Props/C16Node.lean)
@@ -260,11 +261,13 @@ def node_leg(ctx, binary, replay=None):
         return res
 
     lists = {}
+    node_vps, n_client_lists = {}, [0]
     for i, line in enumerate(impl):
         op = ops[i] if i < len(ops) else {}
         kind = op.get("op")
         if kind == "nconf":
             start, lists = i, {}
+            node_vps = {}
             ents = op.get("entries", [])
             elig = [e for e in ents if not e["isDir"] and e["name"].endswith(".json")]
             defects = [e for e in elig if e["intent"] in ("duplicate", "invalid", "dangling", "link-to-dir")]
@@ -368,6 +371,40 @@ def node_leg(ctx, binary, replay=None):
                         and not any(r["subject"] == vp["signer"][0] and r["id"] == vp.get("id") for r in prev.get(sid, {"rows": []})["rows"]):
                     flag("acceptable-registration-refused", f"list {sid} refused ({outc}) a registration that satisfies its definition", i)
             lists = now_lists
+            if outc == "ok":
+                node_vps[(sid, vp["signer"][0], vp.get("id"))] = vp
+        elif kind == "nupdate":
+            # round 3: the real clientUpdater.update() of a second node mirroring ALL lists of the configuration in one store
+            m = re.match(r"^nupdate (\S+) failed=\[(.*?)\]((?: \| \S* seed=\S+ ts=\d+ \[.*?\])*)$", line)
+            if not m:
+                flag("unparsable-line", "update line does not parse", i)
+                continue
+            dist["nupdate:" + m.group(1).split(":")[0] + ":" + ("some-unreachable" if m.group(2) else "all-reachable")] += 1
+            if m.group(1) != "ok":
+                flag("client-update-" + m.group(1).split(":")[0], f"clientUpdater.update ended with {m.group(1)}", i)
+            unreachable = sorted(k for k in conf["all"] if k not in conf["served"])
+            if sorted(x for x in m.group(2).split(",") if x) != unreachable:
+                flag("client-update-reports-wrong-failures", f"update reports failures for [{m.group(2)}], unreachable lists are {unreachable}", i)
+            for k, c in parse_lists(m.group(3)).items():
+                srv_l = lists.get(k, {"seed": "-", "ts": 0, "rows": []})
+                ck = {(r["subject"], r["id"]) for r in c["rows"]}
+                if k not in conf["served"]:
+                    if c["rows"] or c["ts"] != 0:
+                        flag("client-holds-rows-of-an-unreachable-list", f"replica of {k} (not served by the other node): {c}", i)
+                    continue
+                n_client_lists[0] += 1
+                if ck != {(r["subject"], r["id"]) for r in srv_l["rows"]} or c["ts"] != srv_l["ts"] or c["seed"] != srv_l["seed"]:
+                    flag("client-replica-differs-from-served-list", f"after update() the replica of {k} is {sorted(ck)} ts={c['ts']}, the server lists {sorted((r['subject'], r['id']) for r in srv_l['rows'])} ts={srv_l['ts']}"
+                         " (another list of the same client failing or being applied must not matter)", i)
+                for r in c["rows"]:
+                    v = node_vps.get((k, r["subject"], r["id"]))
+                    if v is None:
+                        continue
+                    should = bool(v.get("verifyC")) and not v.get("retraction")
+                    if r["validated"] and not should:
+                        flag("client-flagged-entry-it-cannot-have-verified", f"replica of {k}: {r['subject']}:{r['id']} is validated (verifyC={v.get('verifyC')}, retraction={v.get('retraction')})", i)
+                    if should and not r["validated"]:
+                        flag("client-did-not-flag-verified-entry", f"replica of {k}: {r['subject']}:{r['id']} verifies on the client but is not validated", i)
         elif kind == "nsearchq":
             q = [(t["k"], t["v"]) for t in op.get("query", [])]
             dist["nsearchq:" + ("unknown" if sid not in conf["all"] else "+".join(k.split(".")[-1] + ("~" if "*" in v else "=") for k, v in q) or "empty")] += 1
@@ -454,12 +491,13 @@ def node_leg(ctx, binary, replay=None):
     else:
         ctx.oblige("correspondence:node-model=impl", True, f"{len(impl)} lines equal")
     ctx.cov["node_ops"] = len(impl)
+    ctx.cov["node_client_replicas_compared"] = n_client_lists[0]
     ctx.cov["node_distribution"] = dict(sorted(dist.items()))
 
 
 def run(ctx):
     ctx.facts()
-    thms = ctx.build_and_audit(["NutsProofs.Props.C16", "NutsProofs.Props.C16Node", "NutsProofs.Props.C16R3"])
+    thms = ctx.build_and_audit(["NutsProofs.Props.C16", "NutsProofs.Props.C16Node", "NutsProofs.Props.C16R3", "NutsProofs.Props.C16Client"])
     for r in REQUIRED:
         if not any(t.endswith("Props." + r) for t in thms):
             ctx.oblige("thm-present:" + r, False, "theorem missing or its module does not build")
